@@ -153,9 +153,10 @@ class Repo:
                 from .inline import expand_unknown_helpers
 
                 try:
-                    from .inline import unroll_literal_loops
+                    from .inline import unroll_literal_loops, sink_selected_callees
 
                     unroll_literal_loops(tree)
+                    sink_selected_callees(tree)
                     tree, exp = expand_unknown_helpers(tree, name, self.known_functions)
                     if exp:
                         self.expanded_helpers[rel] = sorted(set(exp))
